@@ -1,5 +1,7 @@
 """C04 - captured variables are frozen by value at the call, respecting scope (DESIGN.md section 4, C04)."""
 import ast
+import collections
+import enum
 import random
 
 from .. import astx, hooks, modgen, probe, valgen
@@ -63,6 +65,9 @@ class CaseGen:
         m = self.k
         ncap = r.randint(1, 4)
         pool = ["c0", "c1", "G0", "G1", "G2", "A.K", "A.B.K", "A.B.C.K", "math.pi", "math.e", f"{self.hm}.VAL_A", f"{self.hm}.VAL_B", f"{self.hm}.HC.K"]
+        # attributes python computes rather than stores: namedtuple field, __slots__ member, property, .value of an enum member held
+        # in a variable, module attribute served by a module-level __getattr__
+        pool += ["NT.pt", "SO.scale", "SO.twice", "EN.value", f"{self.hm}.LAZY"]
         atoms = r.sample(pool, ncap)
         any_bad = r.random() < 0.2
         values = {}
@@ -125,6 +130,8 @@ class CaseGen:
 
 def module_source(cases, hm_name):
     src = [modgen.DS_HEADER, "import math", f"import {hm_name}", "class Thing:", "    def __repr__(self): return 'Thing()'"]
+    # a top-level lambda reading the MODULE GLOBALS c0 / c1 (every case below closes over function locals of the same names)
+    src.append("def gread(ds):\n    return ds.Select(lambda e: e.gr(c0, c1))")
     for i, c in enumerate(cases):
         v = c["values"]
         src.append(f"# ---- case {i}")
@@ -139,6 +146,17 @@ def module_source(cases, hm_name):
         src.append("        return case, {'c0': set_c0, 'c1': set_c1}, now")
         src.append("    return lvl2")
     return "\n".join(src) + "\n"
+
+
+class Slotted:
+    __slots__ = ("scale", "_tw")
+
+    def __init__(self, scale, tw):
+        self.scale, self._tw = scale, tw
+
+    @property
+    def twice(self):
+        return self._tw
 
 
 def set_env(m, hm, c, rnd=None):
@@ -159,6 +177,10 @@ def set_env(m, hm, c, rnd=None):
                 K = conv(v["A.B.C.K"])
 
     m.A = A
+    m.NT = collections.namedtuple("NT", ["pt", "eta"])(conv(v["NT.pt"]), 2.5)
+    m.SO = Slotted(conv(v["SO.scale"]), conv(v["SO.twice"]))
+    m.EN = enum.Enum("Color", {"RED": conv(v["EN.value"])}).RED
+    hm._lazy["LAZY"] = conv(v[f"{hm.__name__}.LAZY"])
     hm.VAL_A, hm.VAL_B = conv(v[f"{hm.__name__}.VAL_A"]), conv(v[f"{hm.__name__}.VAL_B"])
     hm.HC.K = conv(v[f"{hm.__name__}.HC.K"])
     return conv(v["c0"]), conv(v["c1"])
@@ -186,6 +208,16 @@ def rebind_steps(m, hm, setters, c, rnd):
             steps.append((f"helper module VAL_A := {nv!r}", lambda nv=nv: setattr(hm, "VAL_A", nv)))
         elif a.endswith("VAL_B"):
             steps.append((f"del helper module VAL_B", lambda: delattr(hm, "VAL_B")))
+        elif a == "NT.pt":
+            steps.append((f"NT := NT._replace(pt={nv!r})", lambda nv=nv: setattr(m, "NT", m.NT._replace(pt=nv))))
+        elif a == "SO.scale":
+            steps.append((f"SO.scale := {nv!r}", lambda nv=nv: setattr(m.SO, "scale", nv)))
+        elif a == "SO.twice":
+            steps.append((f"SO.twice (property) now gives {nv!r}", lambda nv=nv: setattr(m.SO, "_tw", nv)))
+        elif a == "EN.value":
+            steps.append((f"EN := another member with value {nv!r}", lambda nv=nv: setattr(m, "EN", enum.Enum("Color", {"RED": nv}).RED)))
+        elif a.endswith(".LAZY"):
+            steps.append((f"helper module LAZY (module __getattr__) := {nv!r}", lambda nv=nv: hm._lazy.__setitem__("LAZY", nv)))
         elif a.endswith("HC.K"):
             steps.append((f"helper module HC.K := {nv!r}", lambda nv=nv: setattr(hm.HC, "K", nv)))
     rnd.shuffle(steps)
@@ -207,6 +239,9 @@ def run_case(ctx, m, hm, i, c, rnd):
     witness = {"call": text, "values": {a: repr(c["values"].get(a)) for a in c["atoms"]}, "op": c["op"]}
     expected = probe.behaviour(now())  # python's own resolution at the moment of the call
     ds = m.DS()
+    unbound_c1 = rnd.random() < 0.3
+    if unbound_c1:
+        del m.c1
     try:
         s = case(ds)
     except ValueError as e:
@@ -221,6 +256,18 @@ def run_case(ctx, m, hm, i, c, rnd):
         ctx.violation(f"exc:{type(e).__name__}@{astx.repo_frame(e, REPO)}", f"{text} with {witness['values']}: {type(e).__name__}: {str(e)[:160]}", witness)
         return
     lam = s.query_ast.args[1]
+    # the call must not have leaked its closure variables into the module: a later top-level lambda reading the module globals
+    # of the same names still gets the values the user bound there (or a free name when the global does not exist)
+    try:
+        glam = m.gread(m.DS()).query_ast.args[1]
+        ctx.count("later-global-reads")
+        want = "lambda e: e.gr('decoy-global-c0', c1)" if unbound_c1 else "lambda e: e.gr('decoy-global-c0', -999)"
+        if astx.unparse(glam) != want:
+            ctx.case(key, True)
+            ctx.violation("closure-value-leaked-into-later-capture", f"after {text} (closure c0={c0!r}, c1={c1!r}) a later top-level lambda e: e.gr(c0, c1) with module globals c0='decoy-global-c0', c1={'<unbound>' if unbound_c1 else -999} was recorded as {astx.unparse(glam)[:160]}", witness)
+            return
+    except Exception as e:
+        ctx.count("harness:later-global-read-failed:" + type(e).__name__)
     if c["refusal"]:
         ctx.case(key, nontrivial=True)
         ctx.violation("non-transportable-capture-accepted", f"{text}: captured {c['bad']}={c['values'][c['bad']]!r} cannot be a literal but the call succeeded: {astx.unparse(lam)[:200]}", witness)
@@ -333,7 +380,7 @@ def shard_main(ctx):
             ctx.count("stopped-by-time-budget")
             break
         rnd = random.Random((ctx.seed * 1000 + ctx.shard) * 7919 + f + 4)
-        hm = modgen.load("VAL_A = 0\nVAL_B = 0\nclass HC:\n    K = 0\n", "c04hm")
+        hm = modgen.load("VAL_A = 0\nVAL_B = 0\nclass HC:\n    K = 0\n_lazy = {}\ndef __getattr__(name):\n    try:\n        return _lazy[name]\n    except KeyError:\n        raise AttributeError(name)\n", "c04hm")
         g = CaseGen(rnd, hm.__name__)
         cases = [g.make(i) for i in range(rnd.randint(15, 30))]
         import sys
